@@ -221,13 +221,32 @@ pub fn gen_history(rng: &mut Rng, p: &Profile) -> Seq {
             }
         };
         ops.push(match which {
-            0 => Op::Put(key(rng), gen_val(rng, p.val_mode)),
-            1 => Op::Get(key(rng)),
-            2 => Op::Del(key(rng)),
+            0 => {
+                let (k, v) = (key(rng), gen_val(rng, p.val_mode));
+                if rng.chance(1, 6) && v.len() < 5000 && std::str::from_utf8(&v.bytes()).is_ok() {
+                    Op::PutString(k, v)
+                } else {
+                    Op::Put(k, v)
+                }
+            }
+            1 => {
+                if rng.chance(1, 6) {
+                    Op::GetString(key(rng))
+                } else {
+                    Op::Get(key(rng))
+                }
+            }
+            2 => {
+                if rng.chance(1, 6) {
+                    Op::DelString(key(rng))
+                } else {
+                    Op::Del(key(rng))
+                }
+            }
             3 => Op::Inc(key(rng)),
             4 => Op::Len,
             5 => Op::Empty,
-            6 => Op::Iter(rng.below(6) as u8),
+            6 => Op::Iter(rng.below(7) as u8),
             7 => Op::Stats,
             8 => match rng.below(5) {
                 0 => Op::Flush,
@@ -254,9 +273,19 @@ pub fn gen_history(rng: &mut Rng, p: &Profile) -> Seq {
                         if !ks.is_empty() && rng.chance(1, 2) {
                             ks2.push(ks[0].clone());
                         }
-                        Op::BulkGet(ks2)
+                        if rng.chance(1, 3) {
+                            Op::BulkGetString(ks2)
+                        } else {
+                            Op::BulkGet(ks2)
+                        }
                     }
-                    1 => Op::BulkDel(ks),
+                    1 => {
+                        if rng.chance(1, 3) {
+                            Op::BulkDelString(ks)
+                        } else {
+                            Op::BulkDel(ks)
+                        }
+                    }
                     2 => Op::BulkPut(ks.into_iter().map(|k| (k, gen_val(rng, p.val_mode))).collect()),
                     3 => {
                         // put_from_iter applies pairs in iteration order: repeated keys allowed (the later
